@@ -1122,7 +1122,31 @@ func sweepCases() []LargeCase {
 	return out
 }
 
+// sceneSequence: a viewer or converter loads several captured scenes one after another in one
+// process - here four SPZ streams of 94 000..130 000 splats with full harmonics (4-6 MiB of harmonics
+// each), the sizes neither ascending nor equal. Every stream is judged like any other stream.
+var sceneSequence = []LargeCase{
+	{Kind: "spz", N: 100000, Seed: 21, Version: 2, Deg: 3, FB: 12, Level: gzip.BestSpeed},
+	{Kind: "spz", N: 94000, Seed: 22, Version: 2, Deg: 3, FB: 10, Level: gzip.BestSpeed},
+	{Kind: "spz", N: 130000, Seed: 23, Version: 1, Deg: 3, FB: 12, Level: gzip.BestSpeed},
+	{Kind: "spz", N: 97001, Seed: 24, Version: 2, Deg: 3, FB: 12, Level: gzip.BestSpeed},
+	{Kind: "spz", N: 180000, Seed: 25, Version: 2, Deg: 2, FB: 12, Level: gzip.BestSpeed},
+	{Kind: "spz", N: 175000, Seed: 26, Version: 2, Deg: 2, FB: 12, Level: gzip.BestSpeed},
+}
+
 func runLarge(c LargeCase, o *vh.Obs) *vh.Failure {
+	if c.Kind == "spz-sequence" {
+		o.Class("large/scenes-in-sequence")
+		o.NonTrivial()
+		for i, sc := range sceneSequence {
+			if f := runLarge(sc, &vh.Obs{}); f != nil {
+				f.Sig = "sequence/" + f.Sig
+				f.Msg = fmt.Sprintf("stream %d of %d loaded in one process (%d splats, degree %d): %s", i+1, len(sceneSequence), sc.N, sc.Deg, f.Msg)
+				return f
+			}
+		}
+		return nil
+	}
 	if c.N < 1 || c.N > 2000000 {
 		o.Class("out-of-domain")
 		return nil
@@ -1228,7 +1252,7 @@ func TestC15(t *testing.T) {
 	// captured scenes hold 1-6 million splats: one stream and one .splat file beyond a million (~1 s each)
 	vh.Enumerate(t, vh.Spec[LargeCase]{Name: "million", Run: runLarge,
 		Key: func(c LargeCase) string { return fmt.Sprintf("million-%s-%d", c.Kind, c.N) }},
-		[]LargeCase{{Kind: "spz", N: 1200000, Seed: 7, Version: 2, Deg: 0, FB: 12, Level: gzip.BestSpeed}, {Kind: "splat", N: 1048577, Seed: 9}})
+		[]LargeCase{{Kind: "spz", N: 1200000, Seed: 7, Version: 2, Deg: 0, FB: 12, Level: gzip.BestSpeed}, {Kind: "splat", N: 1048577, Seed: 9}, {Kind: "spz-sequence"}})
 	vh.Enumerate(t, vh.Spec[LargeCase]{Name: "count-sweep", Run: runLarge,
 		Key:    func(c LargeCase) string { return fmt.Sprintf("sweep-%s-%d", c.Kind, c.N) },
 		Sample: func(c LargeCase) any { return fmt.Sprintf("%s with %d splats", c.Kind, c.N) }}, sweepCases())
